@@ -66,6 +66,8 @@ def canon(x: Any) -> Term:
     """Canonical term of any value that can flow through a harness-built pipeline."""
     if isinstance(x, Term):
         return x
+    if hasattr(x, "_pfverif_term"):      # an instance of a harness-built dataclass callable: the instance IS the result
+        return x._pfverif_term
     if hasattr(x, "_pfverif_atom"):      # an instance of a class defined in the run script's __main__ standing for an atom
         return Term(x._pfverif_atom)
     if x is None:
